@@ -212,6 +212,37 @@ def check_tree(tree, rng, decimals_list, variants, st, probe=False):
                 if not np.allclose(z0, z1, rtol=1e-9, atol=0):
                     bad("C03/impedance-differs", f"impedances differ after round trip: {z0[:2]} vs {z1[:2]}", ser)
 
+    # history clause: serialisation follows later changes (no stale text) and a deep copy is independent of them
+    if not fkey:
+        try:
+            els = list(c_obj.generate_element_identifiers(running=True))
+            target = None
+            for e in els[::-1]:
+                for k, val in e.get_values().items():
+                    trial = val * 1.25 if val != 0 else 0.5
+                    if e.get_lower_limit(k) <= trial <= e.get_upper_limit(k) and math.isfinite(trial) and trial != val:
+                        target = (e, k, val, trial)
+                        break
+                if target:
+                    break
+            if target:
+                e, k, val, trial = target
+                before17 = c_obj.to_string(17)
+                dc = copy.deepcopy(c_obj)
+                e.set_values(k, trial)
+                after17 = c_obj.to_string(17)
+                st["mutate_then_serialise"] = st.get("mutate_then_serialise", 0) + 1
+                if dc.to_string(17) != before17:
+                    bad("C03/deepcopy-not-independent", f"changing {e.get_symbol()}.{k} of the original changed the deep copy's serialisation")
+                c2 = parse_cdc(after17)
+                got = [x for x in c2.generate_element_identifiers(running=True)]
+                idx = els.index(e)
+                if after17 == before17 or len(got) != len(els) or got[idx].get_value(k) != trial:
+                    bad("C03/stale-serialisation", f"after {e.get_symbol()}.set_values({k}={trial!r}) the serialisation does not carry the new value")
+                e.set_values(k, val)
+        except Exception as ex:
+            bad(f"C03/mutate-then-serialise-raised:{type(ex).__name__}", monitors.tb_tail(ex))
+
     for v in variants:
         text = G.print_cdc(tree, 17, v, rng)
         try:
